@@ -44,6 +44,26 @@ NOTES = {
  "C18r2-units-skip-cached-per-pgn": ("'has a preferred quantity' cached per PGN on the decoder", "a definition without convertible fields decoded before a sibling that has one", "MISSED by the first C18 (definitions handled independently): every ordered pair of definitions sharing a PGN is now decoded on one decoder"),
  "C19r2-shared-packet-list": ("encoder reuses one packet list per instance", "second send() encoding while the first is suspended in drain()", ""),
  "C20r2-checksum-byte-left": ("packet cut one byte short (checksum byte stays in the buffer)", "a packet whose checksum is 0xAA followed by noise starting with 0x55", "MISSED by the first C20 (valid packets ending in 0xAA were excluded by an assertion): packet P4 (checksum 0xAA) and noise N55 added"),
+ "C01r3-lower-bound-without-epsilon": ("rounding tolerance dropped from the lower range bound only", "signed fields at their most negative in-range raw (4 of 80 signatures)", ""),
+ "C02r3-error-code-decodes-as-absent": ("second-highest raw ('error' code) decodes as absent too", "a field carrying exactly that raw", ""),
+ "C03r3-frame-counter-4bit-mask": ("frame counter masked to 4 bits in the encoder", "payloads of 112 bytes or more (17+ frames)", ""),
+ "C04r3-short-message-skips-restart": ("messages that fit into their first frame are decoded without restarting the buffer", "partial message, then a <=6-byte message, then a message reusing the first counter", "MISSED by the first C04 (all messages were multi-frame): counter cycles containing 5- and 6-byte messages added"),
+ "C05r3-dest-zero-falsy": ("`ps = dest or 0xFF`", "PDU1 PGN addressed to destination 0", ""),
+ "C06r3-pdu1-boundary-encoder-0xEF": ("`pf < 0xEF` in the encoder (same slip as C05 round 1, found independently)", "PF == 0xEF with a destination", ""),
+ "C07r3-record-reuse-keeps-counter": ("reassembly record reset in place, counter kept", "two consecutive messages on a stream with the same counter", ""),
+ "C08r3-arms-swapped-130820": ("two dispatcher arms swapped (generic arm shadows the specific one)", "PGN 130820 messageId 32788 with id 9", ""),
+ "C09r3-floor-division-int-resolution": ("integer floor division when value and resolution are Python ints", "an int value between two steps of a field whose resolution is an integer > 1", "MISSED by the first C09 (between-step values were floats): int between-step values added for integer resolutions"),
+ "C10r3-filtered-fast-record-kept": ("completed reassembly record not deleted when the message is filtered by id", "id filter on a multi-definition fast-packet PGN, next message with the same counter", "MISSED by the first C10 (no id filter on a fast-packet definition): two fast-packet definition ids and a second 130816 definition with the same counter added"),
+ "C11r3-fast-identity-at-first-frame": ("identity captured when frame 0 arrives", "a claim between the frames of a fast-packet message", ""),
+ "C12r3-reader-limit-256": ("`open_connection(..., limit=256)` in the text clients", "an Actisense record longer than 256 bytes (payload > 116 bytes)", "MISSED by the first C12 (the fake connection factory ignored `limit`, and no long valid line existed): the fake honours the requested limit and 134/223-byte payload records were added"),
+ "C13r3-serial-buffer-survives-reconnect": ("Waveshare reassembly buffer not reset on reconnect", "a fault in the middle of a packet", ""),
+ "C14r3-send-closed-check-before-await": ("CLOSED check moved from send()'s failure handler to its top", "close() while a send() is suspended in drain() under back-pressure", "MISSED by the first C14 (no back-pressure in its sessions): sessions whose transport suspends every write were added"),
+ "C15r3-dump-before-unit-conversion": ("dump written before the unit conversion", "dumping + unit preferences + a convertible field", "caught thanks to the feature-interaction variants added just before this round"),
+ "C16r3-unmatched-layout-silences-pgn": ("a PGN is blacklisted once a payload matched no definition (decoder level)", "an ignored unmatched frame of a multi-definition PGN before a valid one", "MISSED by the first C16 (no multi-definition single-frame PGN in its alphabet): unmatched / matching 65285 frames added, with fresh-decoder baselines"),
+ "C17r3-no-hash-without-identity": ("hash only set when the source identity is known", "a source that never claims, after the 10-minute discovery window", "MISSED by the first C17 (clock frozen inside the window): the frozen clock can be moved; a pass 11 minutes after start added"),
+ "C18r3-fahrenheit-truncation": ("`int(x + 0.5)` instead of round() for Fahrenheit", "results below 0 F", ""),
+ "C19r3-send-except-narrowed": ("send() handles only ConnectionError / AssertionError", "a write failing with TimeoutError / OSError / RuntimeError", "MISSED by the first C19: with a transport that closes on a failed write (as asyncio's do) the read path still reports the loss, so nothing observable changed; write-only failures (write() raises, read side healthy) and non-ConnectionError error types were added"),
+ "C20r3-checksum-over-used-bytes": ("checksum verified over the used payload bytes only", "corruption in the padding of a frame with fewer than 8 data bytes", "MISSED by the first C20 (only 8-byte frames): a 3-byte frame and corrupted padding / reserved-byte variants added (C06's corruption sweep caught it)"),
 }
 rows = []
 for d in sorted(glob.glob(os.path.join(V, "seeded", "*"))):
